@@ -275,6 +275,92 @@ Proof.
   intros. apply tadd_comm_step.
 Qed.
 
+(* the shape "accumulate-exact" in general: every iteration adds a per-element contribution [g x] into the
+   accumulators with an addition that is commutative and associative (exact integer / LegacyDec addition is;
+   floating point addition is not) — whatever the accumulators and the contribution are *)
+Theorem accumulate_order_irrelevant : forall (A S : Type) (add : S -> S -> S) (g : A -> S),
+  (forall a b, add a b = add b a) -> (forall a b c, add (add a b) c = add a (add b c)) ->
+  forall acc l l', Permutation l l' ->
+  fold_left (fun a x => add a (g x)) l acc = fold_left (fun a x => add a (g x)) l' acc.
+Proof.
+  intros A S add g C As acc l l' P.
+  apply (fold_left_perm_comm S A (fun a x => add a (g x))); [|exact P].
+  intros a x y. rewrite !As. f_equal. apply C.
+Qed.
+
+(* ... of which the gov tally is the instance with five Z accumulators *)
+Lemma tadd_comm : forall a b, tadd a b = tadd b a.
+Proof. intros [] []. unfold tadd. simpl. f_equal; lia. Qed.
+Lemma tadd_assoc : forall a b c, tadd (tadd a b) c = tadd a (tadd b c).
+Proof. intros [] [] []. unfold tadd. simpl. f_equal; lia. Qed.
+
+(* ------------------------------------------------------------------ *)
+(* PowerDiff, the integer-exactness argument from the normalisation alone: the members of an oracle set carry
+   non-negative powers that sum to at most MaxUint32 (GetCurrentOracleSet divides by the total; C07's invariant
+   members_ok), so the sum of |differences| is at most sum(b) + sum(c) <= 2^33 — every partial sum of every
+   iteration order is an integer below 2^53 *)
+Definition psum (m : list member) : Z := fold_right (fun p a => snd p + a) 0 m.
+
+Lemma sum_abs_map_snd_cons : forall k v (m : pmap), sum_abs (map snd ((k, v) :: m)) = Z.abs v + sum_abs (map snd m).
+Proof. intros. cbn [map snd]. apply sum_abs_cons. Qed.
+
+Lemma pm_set_sum : forall m k v,
+  sum_abs (map snd (pm_set m k v)) =
+  sum_abs (map snd m) - Z.abs (match pm_get m k with Some o => o | None => 0 end) + Z.abs v.
+Proof.
+  induction m as [|[k' v'] r IH]; intros k v; cbn [pm_set pm_get].
+  - rewrite sum_abs_map_snd_cons. unfold sum_abs; simpl. lia.
+  - destruct (k =? k') eqn:E.
+    + rewrite !sum_abs_map_snd_cons. lia.
+    + rewrite !sum_abs_map_snd_cons. rewrite IH. lia.
+Qed.
+
+Lemma powers_of_sum_bound : forall b c,
+  Forall (fun p => 0 <= snd p) b -> Forall (fun p => 0 <= snd p) c ->
+  sum_abs (map snd (powers_of b c)) <= psum b + psum c.
+Proof.
+  intros b c Hb Hc. unfold powers_of.
+  assert (G1 : forall l m, Forall (fun p => 0 <= snd p) l ->
+            sum_abs (map snd (fold_left (fun m bv => pm_set m (fst bv) (snd bv)) l m)) <= sum_abs (map snd m) + psum l).
+  { induction l as [|x l IH]; intros m H; cbn [fold_left psum fold_right]; [lia|].
+    inversion H as [|? ? Hx Hl]; subst. specialize (IH (pm_set m (fst x) (snd x)) Hl).
+    rewrite pm_set_sum in IH. fold (psum l).
+    pose proof (Z.abs_nonneg (match pm_get m (fst x) with Some o => o | None => 0 end)). lia. }
+  assert (G2 : forall l m, Forall (fun p => 0 <= snd p) l ->
+            sum_abs (map snd (fold_left (fun m bv => match pm_get m (fst bv) with
+                                                     | Some v => pm_set m (fst bv) (v - snd bv)
+                                                     | None => pm_set m (fst bv) (- snd bv) end) l m)) <= sum_abs (map snd m) + psum l).
+  { induction l as [|x l IH]; intros m H; cbn [fold_left psum fold_right]; [lia|].
+    inversion H as [|? ? Hx Hl]; subst. fold (psum l).
+    destruct (pm_get m (fst x)) as [v|] eqn:E.
+    - specialize (IH (pm_set m (fst x) (v - snd x)) Hl). rewrite pm_set_sum, E in IH. lia.
+    - specialize (IH (pm_set m (fst x) (- snd x)) Hl). rewrite pm_set_sum, E in IH. simpl in IH. lia. }
+  cbv zeta. eapply Z.le_trans; [apply G2; exact Hc|].
+  specialize (G1 b [] Hb). unfold sum_abs in G1 at 2. simpl in G1. lia.
+Qed.
+
+Theorem power_diff_exact_from_normalisation : forall (rnd : Z -> Z),
+  (forall z, Z.abs z <= two53 -> rnd z = z) ->
+  forall b c, Forall (fun p => 0 <= snd p) b -> Forall (fun p => 0 <= snd p) c ->
+  psum b <= max_uint32 -> psum c <= max_uint32 ->
+  forall order, Permutation (map snd (powers_of b c)) order ->
+  (* every partial sum of every iteration order is an exact integer below 2^53 ... *)
+  (forall n, sum_abs (firstn n order) <= two53 /\ fsum rnd (firstn n order) = sum_abs (firstn n order)) /\
+  (* ... so the accumulated value is the exact sum, whatever the order *)
+  fsum rnd order = power_diff_sum b c.
+Proof.
+  intros rnd R b c Hb Hc Sb Sc order P.
+  pose proof (powers_of_sum_bound b c Hb Hc) as B.
+  assert (T : sum_abs order <= two53).
+  { rewrite <- (sum_abs_perm _ _ P). unfold max_uint32, two53 in *. lia. }
+  split.
+  - intro n. assert (L : sum_abs (firstn n order) <= sum_abs order).
+    { rewrite <- (firstn_skipn n order) at 2. unfold sum_abs at 2. rewrite fold_left_app. rewrite sum_abs_acc.
+      pose proof (sum_abs_nonneg (skipn n order)). fold (sum_abs (firstn n order)). lia. }
+    split; [lia|apply fsum_exact; [exact R|lia]].
+  - rewrite fsum_exact; [|exact R|exact T]. unfold power_diff_sum. symmetry. apply sum_abs_perm. exact P.
+Qed.
+
 (* ------------------------------------------------------------------ *)
 (* 4./5. map rebuild and key deletion (pointwise) *)
 
@@ -342,8 +428,10 @@ Definition discharge_stmt (d : discharge) : Prop :=
         (forall l, NoDup (map key l) -> StronglySorted (klt A key) (srt l)) ->
         forall l l', NoDup (map key l) -> Permutation l l' -> srt l = srt l'
   | D_CommSum =>
-      forall mq mul acc vals vals', Permutation vals vals' ->
-        tally_validators mq mul acc vals = tally_validators mq mul acc vals'
+      forall (A S : Type) (add : S -> S -> S) (g : A -> S),
+        (forall a b, add a b = add b a) -> (forall a b c, add (add a b) c = add a (add b c)) ->
+        forall acc l l', Permutation l l' ->
+        fold_left (fun a x => add a (g x)) l acc = fold_left (fun a x => add a (g x)) l' acc
   | D_ExactFloatSum =>
       forall (rnd : Z -> Z), (forall z, Z.abs z <= two53 -> rnd z = z) ->
         forall vals vals', Permutation vals vals' ->
@@ -362,7 +450,7 @@ Lemma discharge_sound : forall d, discharge_stmt d.
 Proof.
   intros []; simpl; auto; try (exact (proj1 state_wiring_only)).
   - intros. eapply sort_after_collect_deterministic; eauto.
-  - intros. apply tally_order_irrelevant. assumption.
+  - intros. apply accumulate_order_irrelevant; assumption.
   - intros. apply power_diff_order_irrelevant; assumption.
   - intros. apply map_rebuild_order_irrelevant; assumption.
 Qed.
@@ -371,12 +459,12 @@ Lemma sites_allowed : all_sites_allowed gen_sites = true.
 Proof. vm_compute. reflexivity. Qed.
 
 Theorem all_sites_discharged : forall s, In s gen_sites ->
-  exists d, lookup_allow s = Some d /\ discharge_stmt d.
+  exists d, lookup_allow s = Some d /\ discharge_fits d s = true /\ discharge_stmt d.
 Proof.
   intros s Hs. pose proof sites_allowed as H. unfold all_sites_allowed in H.
   rewrite forallb_forall in H. specialize (H s Hs).
   destruct (lookup_allow s) as [d|] eqn:E; [|discriminate].
-  exists d. split; [reflexivity|apply discharge_sound].
+  exists d. split; [reflexivity|]. split; [exact H|apply discharge_sound].
 Qed.
 
 (* the sources contain no wall-clock reads, no math/rand, no goroutines or selects at all *)
